@@ -1,6 +1,7 @@
 package wire
 
 import (
+	"errors"
 	"bufio"
 	"bytes"
 	"fmt"
@@ -109,12 +110,27 @@ type chunkReader struct {
 	failAt int
 	err    error
 	drawn  int
+	// transient: offsets before which the transport reports errTransient exactly once and then goes on.
+	transient map[int]bool
+	fired     int
 }
+
+var errTransient = errors.New("transient transport error")
 
 func (c *chunkReader) Read(p []byte) (int, error) {
 	limit := len(c.data)
 	if c.failAt >= 0 && c.failAt < limit {
 		limit = c.failAt
+	}
+	if c.transient[c.pos] {
+		delete(c.transient, c.pos)
+		c.fired++
+		return 0, errTransient
+	}
+	for off := range c.transient {
+		if off > c.pos && off < limit {
+			limit = off
+		}
 	}
 	if c.pos >= limit {
 		if c.failAt >= 0 {
@@ -180,6 +196,10 @@ func readAll(cr *chunkReader, drw *dialect.ReadWriter, key *frame.V2Key, maxCall
 					return out, nil, fmt.Errorf("frame returned together with a ReadError")
 				}
 				out = append(out, r)
+				continue
+			}
+			if err == errTransient && cr.transient != nil {
+				// the transport recovered: the same reader goes on
 				continue
 			}
 			return out, err, nil
